@@ -9,15 +9,99 @@ Z3_TIMEOUT_MS = 20000
 RETRY = False
 
 
+_canon_memo = {}
+_height_memo = {}
+
+
+def _qheight(t):
+    """nesting height of binders inside t (0 = no binder)"""
+    k = t.get_id()
+    r = _height_memo.get(k)
+    if r is not None:
+        return r[0]
+    if z3.is_quantifier(t):
+        h = 1 + _qheight(t.body())
+    elif z3.is_app(t):
+        h = 0
+        for c in t.children():
+            hc = _qheight(c)
+            if hc > h:
+                h = hc
+    else:
+        h = 0
+    _height_memo[k] = (h, t)
+    return h
+
+
+def canon(t):
+    """Rename bound variables canonically (by binder height) so that alpha-equivalent lambdas / quantifiers built by
+    different evaluations of the same source expression become the SAME term (z3 hash-conses binders with their names)."""
+    k = t.get_id()
+    r = _canon_memo.get(k)
+    if r is not None:
+        return r[0]
+    if z3.is_quantifier(t):
+        n = t.num_vars()
+        h = _qheight(t.body())
+        vs = [z3.Const(f"b{h}_{i}", t.var_sort(i)) for i in range(n)]
+        body = canon(z3.substitute_vars(t.body(), *reversed(vs)))
+        if t.is_lambda():
+            res = z3.Lambda(vs, body)
+        elif t.is_forall():
+            res = z3.ForAll(vs, body)
+        else:
+            res = z3.Exists(vs, body)
+    elif z3.is_app(t) and t.num_args() > 0 and _qheight(t) > 0:
+        ch = t.children()
+        nch = [canon(c) for c in ch]
+        if all(a.eq(b) for a, b in zip(ch, nch)):
+            res = t
+        else:
+            try:
+                res = t.decl()(*nch)
+            except Exception:
+                res = z3.substitute(t, *[(a, b) for a, b in zip(ch, nch) if not a.eq(b) and a.sort().eq(b.sort())])
+    else:
+        res = t
+    _canon_memo[k] = (res, t)
+    return res
+
+
 def discharge(ob, timeout_ms=Z3_TIMEOUT_MS, want_model=True):
     """sets ob.status in {'proved','refuted','unknown'}, ob.time, ob.model (text), ob.backend"""
     t0 = time.time()
+    if not getattr(ob, "_canon", False):
+        # one normal form for every formula: beta-reduce / simplify (so that the same source expression evaluated twice
+        # gives the same argument term to uninterpreted functions), then canonical binder names
+        ob.raw_hyps, ob.raw_goal = ob.hyps, ob.goal
+        ob.hyps = tuple(canon(z3.simplify(h)) for h in ob.hyps)
+        ob.goal = canon(z3.simplify(ob.goal))
+        ob._canon = True
     s = z3.Solver()
     s.set("timeout", timeout_ms)
     s.add(*ob.hyps)
     s.add(z3.Not(ob.goal))
     r = s.check()
     backend = "z3"
+    if r == z3.unknown:
+        # definitional quantified facts (f(args) == body) are macros: let z3 eliminate them
+        sm = z3.Solver()
+        sm.set("timeout", timeout_ms)
+        sm.set("smt.macro_finder", True)
+        sm.add(*ob.hyps)
+        sm.add(z3.Not(ob.goal))
+        rm = sm.check()
+        if rm != z3.unknown:
+            r, s, backend = rm, sm, "z3(macro_finder)"
+    if r == z3.unknown:
+        # the un-normalised form sometimes instantiates better (selects on explicit lambdas are E-matching triggers)
+        s1 = z3.Solver()
+        s1.set("timeout", timeout_ms)
+        s1.add(*ob.raw_hyps)
+        s1.add(z3.Not(ob.raw_goal))
+        r1 = s1.check()
+        if r1 != z3.unknown:
+            r, s, backend = r1, s1, "z3(raw form)"
     if r == z3.unknown and RETRY:
         # second attempt: different quantifier strategy
         s2 = z3.Solver()
